@@ -309,8 +309,8 @@ def r6_window_update(ctx):
                 r.check(name in allowed or name.split('::{closure')[0] in allowed, 'who|' + name, f.loc(bi), 'inc_window on receive flow %s in %s' % (core.show(flow), name))
 
 
-def r7_drop_paths(ctx):
-    r = ctx.rule('C03.R7', 'PASS', 'dropping RecvStream / the last stream reference returns buffered capacity')
+def r7_drop_paths(ctx, rid='C03.R7'):
+    r = ctx.rule(rid, 'PASS', 'dropping RecvStream / the last stream reference returns buffered capacity')
     F = ctx.facts
     d = r.fn('<share::RecvStream as std::ops::Drop>::drop')
     if d:
